@@ -277,9 +277,9 @@ func (s *stream) IsOpen() bool {
 }
 
 func (s *stream) Rebalance() {
-	if s.balancing && s.rebalanceTimer != nil {
+	if s.balancing {
 		// Is rebalance timer triggered already
-		if s.rebalanceTimer.Stop() {
+		if s.rebalanceTimer != nil && s.rebalanceTimer.Stop() {
 			s.rebalanceTimer.Reset(s.config.Dcp.Group.Membership.RebalanceDelay)
 			logger.Log.Info("latest rebalance time is resetted")
 		} else {
